@@ -318,6 +318,7 @@ func (e *Engine) pureRegion(f *frame, b *ssa.BasicBlock, arr []arrival, stop *ss
 		var next *ssa.BasicBlock
 		for _, ins := range b.Instrs {
 			e.step()
+			e.curIns = ins
 			switch x := ins.(type) {
 			case *ssa.Phi:
 				f.env[x] = e.phiFromArrivals(f, b, x, arr)
